@@ -1,24 +1,57 @@
-import CffiVerif.Proofs.CInt
+import CffiVerif.Proofs.IntCast
 
 /-!
 C04 — `ffi.cast` to integer and character types follows C conversion rules.
 
-Statement on the model (`CInt.cast`, `CInt.castInt` = `int(ffi.cast(T, x))`,
-mirroring `cast_to_integer_or_char`).  `T` ranges over *every* integer or
-character primitive `(width ∈ {1,2,4,8} bytes, kind ∈ {signed, unsigned, _Bool,
-char, signed wchar_t})`; sources: every Python int, bool, finite float
-`m·2^e`, one byte, one code point ≤ 0x10FFFF, every address < 2^64
-(`CastSrc.WF`).  `src.trunc` is the source truncated toward zero (code point,
-byte, address), `T.wrap` the value of `T`'s range congruent modulo `2^bits`.
+Statement on the model `CInt.cast` / `CInt.castInt` (= `int(ffi.cast(T, x))`, Model/IntCast.lean).
+The arithmetic of the model is *not* hand-written: every expression assigned to `value` in
+`cast_to_integer_or_char`, `!!value`, the truncation of `write_raw_integer_data`, the raw and
+character reads of `cdata_int`, the guards and CPython calls of `_my_PyLong_AsUnsignedLongLong` /
+`_my_PyObject_AsBool` come from `Generated/CastExprs.lean`, re-extracted from the C source on every
+run, so each theorem below is re-checked by the kernel against the current source.
+
+`T` ranges over every integer or character primitive (1/2/4/8 bytes; signed, unsigned, _Bool, char
+kinds; `T.CharWF`: a signed wchar_t is 4 bytes, there is no 8-byte character type).  Sources: Python
+int / bool / float, bytes, str, pointer-like cdata and built-in functions, integer / character /
+float cdata, instances of Python classes with `__int__` / `__float__` / `__index__`, other objects.
+`src.trunc` is the source truncated toward zero and is `none` exactly for the sources the
+property's "succeeds" clause excludes (non-finite floats, non-single bytes/str, non-numbers).
 -/
 namespace CffiVerif.C04
-open CffiVerif.CInt
+open CffiVerif.CInt CffiVerif.Generated
 
-/-- **the cast never fails and yields the wrapped truncation** (non-`_Bool`): in one equation,
+/-! ### the regenerated pieces mean what the model of C03 says by hand -/
+
+/-- the branches of `cast_to_integer_or_char` are the ones `castValue` follows, in this order;
+the integer conversions are the non-strict ones; the raw read/write type lists cover sizes 1,2,4,8 -/
+theorem generated_shape :
+    CastExprs.castBranches = modelledBranches ∧ CastExprs.castStrict = false ∧ CastExprs.ptrCastStrict = false ∧
+    CastExprs.ullCalls = ("PyLong_AsUnsignedLongLong", "PyLong_AsUnsignedLongLongMask") ∧
+    CastExprs.writeRawTypes = [(1, 8, false), (2, 16, false), (4, 32, false), (8, 64, false)] ∧
+    CastExprs.readSignedTypes = [(1, 8, true), (2, 16, true), (4, 32, true), (8, 64, true)] ∧
+    CastExprs.readUnsignedTypes = [(1, 8, false), (2, 16, false), (4, 32, false), (8, 64, false)] := by
+  decide
+
+/-- `write_raw_integer_data` as extracted keeps the low `size` bytes -/
+theorem generated_write_is_truncation (v : BitVec 64) (w : Width) : writeRawGen v w = writeRaw (v.toNat : Int) w :=
+  writeRawGen_eq v w
+
+/-- `int(cdata)` as extracted is the signed / unsigned / character read of the object -/
+theorem generated_read_is_readInt (T : IntType) (hT : T.CharWF) (data : List UInt8) (hl : T.bytes ≤ data.length) :
+    cdataToInt T data = readInt T data :=
+  cdataToInt_eq_readInt T hT data hl
+
+/-- every type of the table is well formed -/
+theorem castTypes_wf : (∀ T ∈ castTypes, T.CharWF) ∧ castTypes.length = 46 ∧
+    (castTypes.filter (·.kind = .bool)).length = 1 := by decide
+
+/-! ### the property -/
+
+/-- **the cast succeeds and yields the wrapped truncation** (non-`_Bool`):
 `int(ffi.cast(T, x)) = T.wrap (trunc x)`. -/
-theorem cast_eq_wrap (T : IntType) (hb : T.kind ≠ .bool) (src : CastSrc) (hwf : src.WF) :
-    ∃ x, src.trunc = some x ∧ castInt T src = .ok (T.wrap x) :=
-  castInt_eq_wrap T hb src hwf
+theorem cast_eq_wrap (T : IntType) (hb : T.kind ≠ .bool) (hT : T.CharWF) (src : CastSrc) (hwf : src.WF)
+    (x : Int) (hx : src.trunc = some x) : castInt T src = .ok (T.wrap x) :=
+  castInt_eq_wrap T hb hT src hwf x hx
 
 /-- `T.wrap x` lies in `T`'s range … -/
 theorem wrap_in_range (T : IntType) (hb : T.kind ≠ .bool) (x : Int) : T.InRange (T.wrap x) := by
@@ -42,49 +75,42 @@ theorem wrap_unique (T : IntType) (hb : T.kind ≠ .bool) (x r : Int)
     simp [IntType.InRange, IntType.lo, IntType.hi, IntType.wrap, CInt.wrap, IntType.readsSigned, IntType.bits,
       Width.bits, Width.bytes, wrapS, wrapU] at hb hr hc ⊢ <;> omega
 
-/-- **cast range**: the result is a value of `T` (all kinds, `_Bool` included). -/
-theorem cast_in_range (T : IntType) (src : CastSrc) (r : Int) (h : castInt T src = .ok r) : T.InRange r := by
-  by_cases hb : T.kind = .bool
-  · -- `!!value` is 0 or 1
-    simp only [castInt, CInt.cast, hb, if_true] at h
-    cases hv : castValue T src with
-    | error e => simp [hv] at h
-    | ok value =>
-      simp only [hv] at h
-      rcases T with ⟨n, w, k⟩
-      simp only at hb; subst hb
-      by_cases h0 : value = 0 <;> simp only [h0, ne_eq, not_true_eq_false, not_false_eq_true, if_true, if_false] at h <;>
-        cases w <;> (simp [readInt, IntType.bytes, Width.bytes, writeRaw, wrapU, toLE, readRawUnsigned, fromLE] at h) <;>
-        subst h <;> simp [IntType.InRange, IntType.lo, IntType.hi]
-  · simp only [castInt, CInt.cast, hb, if_false] at h
-    cases hv : castValue T src with
-    | error e => simp [hv] at h
-    | ok value =>
-      simp only [hv, readInt_writeRaw_wrap T hb] at h
+/-- **cast range**: whatever the source, a cast that succeeds yields a value of `T` (`_Bool` included). -/
+theorem cast_in_range (T : IntType) (hT : T.CharWF) (src : CastSrc) (r : Int) (h : castInt T src = .ok r) :
+    T.InRange r := by
+  cases hv : castValue T src with
+  | error e => simp [castInt, CInt.cast, hv] at h
+  | ok value =>
+    by_cases hb : T.kind = .bool
+    · rw [castInt_bool_of_value T hb src value hv] at h
       cases h
-      exact wrap_in_range T hb value
+      by_cases h0 : value = 0#64 <;> simp [h0, IntType.InRange, IntType.lo, IntType.hi, hb]
+    · rw [castInt_of_value T hb hT src value hv] at h
+      cases h
+      exact wrap_in_range T hb _
 
 /-- **cast congruence**: `int(ffi.cast(T, x)) ≡ trunc x (mod 2^(8·sizeof T))`. -/
-theorem cast_congr (T : IntType) (hb : T.kind ≠ .bool) (src : CastSrc) (hwf : src.WF) :
-    ∃ x r, src.trunc = some x ∧ castInt T src = .ok r ∧ (r - x) % 2 ^ T.bits = 0 := by
-  obtain ⟨x, hx, hc⟩ := castInt_eq_wrap T hb src hwf
-  exact ⟨x, _, hx, hc, wrap_congr_mod T x⟩
+theorem cast_congr (T : IntType) (hb : T.kind ≠ .bool) (hT : T.CharWF) (src : CastSrc) (hwf : src.WF)
+    (x : Int) (hx : src.trunc = some x) :
+    ∃ r, castInt T src = .ok r ∧ (r - x) % 2 ^ T.bits = 0 :=
+  ⟨_, castInt_eq_wrap T hb hT src hwf x hx, wrap_congr_mod T x⟩
 
 /-- hence, wherever C defines the conversion by "the value is unchanged" (the truncated source is
 representable in `T`), the cast yields exactly that value. -/
-theorem cast_preserves_representable (T : IntType) (hb : T.kind ≠ .bool) (src : CastSrc) (hwf : src.WF)
-    (x : Int) (hx : src.trunc = some x) (hr : T.InRange x) : castInt T src = .ok x := by
-  obtain ⟨x', hx', hc⟩ := castInt_eq_wrap T hb src hwf
-  rw [hx] at hx'; cases hx'
-  rw [hc, ← wrap_unique T hb x x hr (by simp)]
+theorem cast_preserves_representable (T : IntType) (hb : T.kind ≠ .bool) (hT : T.CharWF) (src : CastSrc)
+    (hwf : src.WF) (x : Int) (hx : src.trunc = some x) (hr : T.InRange x) : castInt T src = .ok x := by
+  rw [castInt_eq_wrap T hb hT src hwf x hx, ← wrap_unique T hb x x hr (by simp)]
 
 example : castInt (mk "signed char" .w8 .signed) (.int 200) = .ok (-56) := by rfl
 example : castInt (mk "wchar_t" .w32 .swchar) (.str [0x1F600]) = .ok 0x1F600 := by rfl
 example : castInt (mk "char" .w8 .char) (.str [0x1234]) = .ok 0x34 := by rfl
-example : castInt (mk "int" .w32 .signed) (.float (-7) (-1)) = .ok (-3) := by rfl      -- -3.5
+example : castInt (mk "int" .w32 .signed) (.float (.finite (-7) (-1))) = .ok (-3) := by rfl      -- -3.5
 example : castInt (mk "unsigned short" .w16 .unsigned) (.int (-(2 ^ 100) - 1)) = .ok 65535 := by rfl
-example : (CastSrc.str [0x1F600]).WF := ⟨_, rfl, by decide⟩
+example : castInt (mk "long" .w64 .signed) (.cdataInt (mk "unsigned char" .w8 .unsigned) [200]) = .ok 200 := by rfl
+example : castInt (mk "signed char" .w8 .signed) (.obj true (some (.int 300)) none) = .ok 44 := by rfl
+example : (CastSrc.str [0x1F600]).WF := by simp [CastSrc.WF]
 example : (CastSrc.ptr (2 ^ 64 - 1)).WF := by simp [CastSrc.WF]
+example : (CastSrc.cdataInt (mk "int" .w32 .signed) [0xfb, 0xff, 0xff, 0xff]).trunc = some (-5) := by rfl
 
 /-- `int(float)` is truncation toward zero: for a negative exponent the result `q` is the
 integer of largest magnitude with `|q| · 2^-e ≤ |m|`, with the sign of `m`. -/
@@ -121,75 +147,89 @@ theorem floatTrunc_toward_zero (m e : Int) (he : e < 0) :
 
 example : floatTrunc (-7) (-1) = -3 ∧ floatTrunc 7 (-1) = 3 ∧ floatTrunc 3 70 = 3 * 2 ^ 70 := by decide
 
-/-- **`_Bool`**: the result is 0/1 by non-zeroness of the source itself (`0.5` is true). -/
-theorem cast_bool (T : IntType) (hb : T.kind = .bool) (src : CastSrc) (hwf : src.WF) :
-    ∃ b, src.nonzero = some b ∧ castInt T src = .ok (if b then 1 else 0) := by
-  rcases T with ⟨n, w, k⟩
-  simp only at hb; subst hb
-  have key : ∀ c : Bool, (match (Except.ok (writeRaw (if c then 1 else 0) w) : Except ErrKind (List UInt8)) with
-      | .error e => (.error e : Except ErrKind Int) | .ok bs => readInt ⟨n, w, .bool⟩ bs) = .ok (if c then 1 else 0) := by
-    intro c
-    cases c <;> cases w <;> simp [readInt, IntType.bytes, Width.bytes, writeRaw, wrapU, toLE, readRawUnsigned, fromLE]
+/-- **`_Bool`**: the result is 0/1 by non-zeroness of the source itself (`0.5`, `inf`, `nan` are true;
+for an object, of what `__float__` returns if defined, else `__int__`). -/
+theorem cast_bool (T : IntType) (hb : T.kind = .bool) (src : CastSrc) (hwf : src.WF) (b : Bool)
+    (hn : src.nonzero = some b) : castInt T src = .ok (if b then 1 else 0) := by
+  have key : ∀ value : BitVec 64, castValue T src = .ok value → (value = 0#64 ↔ b = false) →
+      castInt T src = .ok (if b then 1 else 0) := by
+    intro value hv hz
+    rw [castInt_bool_of_value T hb src value hv]
+    cases b <;> simp_all
+  have viaAsBool : src.viaObject = true → castInt T src = .ok (if b then 1 else 0) := by
+    intro hs
+    have ha := asBool_eq src b hn hs
+    refine key (CastExprs.boolResValue (if b = false then 0#32 else 1#32)) ?_ ?_
+    · cases src <;> first | (simp [CastSrc.viaObject] at hs; done) | simp [castValue, hb, ha]
+    · rw [boolResValue_ite]; cases b <;> simp
   cases src with
-  | int v =>
-    refine ⟨v != 0, rfl, ?_⟩
-    have := key (v != 0)
-    by_cases h0 : v = 0 <;> simp [castInt, CInt.cast, castValue, h0] at this ⊢ <;> exact this
-  | bool b =>
-    refine ⟨b, rfl, ?_⟩
-    have := key b
-    cases b <;> simp [castInt, CInt.cast, castValue] at this ⊢ <;> exact this
-  | float m e =>
-    refine ⟨m != 0, rfl, ?_⟩
-    have := key (m != 0)
-    by_cases h0 : m = 0 <;> simp [castInt, CInt.cast, castValue, h0] at this ⊢ <;> exact this
   | bytes bs =>
-    match bs, hwf with
-    | [b], _ =>
-      refine ⟨b.toNat != 0, rfl, ?_⟩
-      have := key (b.toNat != 0)
-      by_cases h0 : b.toNat = 0 <;> simp [castInt, CInt.cast, castValue, h0] at this ⊢ <;> exact this
+    match bs, hn with
+    | [x], hn =>
+      cases hn
+      refine key _ rfl ?_
+      have := x.toNat_lt
+      rw [← BitVec.toNat_inj]
+      simp [CastExprs.bytesValue]
+      try omega
   | str cps =>
-    obtain ⟨cp, rfl, hcp⟩ := hwf
-    refine ⟨cp != 0, rfl, ?_⟩
-    have := key (cp != 0)
-    have hw : wrapU 32 (cp : Int) = cp := by simp [wrapU]; omega
-    by_cases h0 : cp = 0 <;> simp [castInt, CInt.cast, castValue, h0, hw] at this ⊢ <;> exact this
+    match cps, hn with
+    | [cp], hn =>
+      cases hn
+      have hcp : cp ≤ 0x10FFFF := hwf cp (by simp)
+      have hk : ¬ T.kind = .swchar := by rw [hb]; simp
+      refine key (CastExprs.charValue (BitVec.ofNat 32 cp)) (by simp [castValue, hk]) ?_
+      rw [← BitVec.toNat_inj]
+      simp [CastExprs.charValue]
+      omega
   | ptr a =>
-    refine ⟨a != 0, rfl, ?_⟩
+    cases hn
     simp [CastSrc.WF] at hwf
-    have := key (a != 0)
-    have hw : wrapU 64 (wrapS 64 (a : Int)) = a := by simp [wrapU, wrapS]; omega
-    by_cases h0 : a = 0 <;> simp [castInt, CInt.cast, castValue, h0, hw] at this ⊢ <;> exact this
+    refine key _ rfl ?_
+    rw [← BitVec.toNat_inj]
+    simp [CastExprs.ptrValue]
+    omega
+  | int v => exact viaAsBool rfl
+  | bool c => exact viaAsBool rfl
+  | float f => exact viaAsBool rfl
+  | cdataInt S bs => exact viaAsBool rfl
+  | cdataFloat f => exact viaAsBool rfl
+  | cdataOther => exact viaAsBool rfl
+  | obj h i f => exact viaAsBool rfl
+  | noNumber => exact viaAsBool rfl
 
-example : castInt (mk "_Bool" .w8 .bool) (.float 1 (-1)) = .ok 1 := by rfl      -- 0.5
-example : castInt (mk "_Bool" .w8 .bool) (.int (2 ^ 64)) = .ok 1 := by rfl      -- not masked to 64 bits first
+example : castInt (mk "_Bool" .w8 .bool) (.float (.finite 1 (-1))) = .ok 1 := by rfl      -- 0.5
+example : castInt (mk "_Bool" .w8 .bool) (.int (2 ^ 64)) = .ok 1 := by rfl                 -- not masked first
 example : castInt (mk "_Bool" .w8 .bool) (.ptr 0) = .ok 0 := by rfl
+example : castInt (mk "_Bool" .w8 .bool) (.obj false (some (.int 0)) (some (.float (.finite 1 (-1))))) = .ok 1 := by rfl
 
-/-- **pointer → `intptr_t` → pointer** is the identity on addresses. -/
-theorem ptr_intptr_ptr (n : String) (a : Nat) (ha : a < 2 ^ 64) :
-    ∃ r, castInt ⟨n, .w64, .signed⟩ (.ptr a) = .ok r ∧ castToPointer r = a := by
-  obtain ⟨x, hx, hc⟩ := castInt_eq_wrap ⟨n, .w64, .signed⟩ (by simp) (.ptr a) ha
-  cases hx
-  refine ⟨_, hc, ?_⟩
-  simp [castToPointer, myAsUnsignedLongLong, pyLongAsUnsignedLongLongMask, IntType.wrap, CInt.wrap,
-    IntType.readsSigned, IntType.bits, Width.bits, Width.bytes, wrapS, wrapU]
-  omega
+/-! ### what the "succeeds" clause excludes, and which objects are accepted -/
 
-/-- **pointer → `uintptr_t` → pointer** is the identity on addresses. -/
-theorem ptr_uintptr_ptr (n : String) (a : Nat) (ha : a < 2 ^ 64) :
-    ∃ r, castInt ⟨n, .w64, .unsigned⟩ (.ptr a) = .ok r ∧ castToPointer r = a := by
-  obtain ⟨x, hx, hc⟩ := castInt_eq_wrap ⟨n, .w64, .unsigned⟩ (by simp) (.ptr a) ha
-  cases hx
-  refine ⟨_, hc, ?_⟩
-  simp [castToPointer, myAsUnsignedLongLong, pyLongAsUnsignedLongLongMask, IntType.wrap, CInt.wrap,
-    IntType.readsSigned, IntType.bits, Width.bits, Width.bytes, wrapS, wrapU]
-  omega
+/-- **non-finite floats** (Python float or float cdata): OverflowError for an infinity, ValueError for
+a nan — except to `_Bool`, where both are simply non-zero. -/
+theorem cast_nonfinite (T : IntType) (hb : T.kind ≠ .bool) (n : Bool) :
+    castInt T (.float (.inf n)) = .error .overflow ∧ castInt T (.float .nan) = .error .valueError ∧
+    castInt T (.cdataFloat (.inf n)) = .error .overflow ∧ castInt T (.cdataFloat .nan) = .error .valueError := by
+  simp [castInt, CInt.cast, castValue, hb, asULL, CastExprs.ullRefuses, CastExprs.castStrict, CastSrc.nbInt,
+    CastSrc.isCDataOrFloat, FloatVal.toInt, Except.map]
 
-example : castInt (mk "intptr_t" .w64 .signed) (.ptr (2 ^ 64 - 1)) = .ok (-1) ∧ castToPointer (-1) = 2 ^ 64 - 1 :=
-  ⟨by rfl, by decide⟩
+/-- **which objects are accepted**: `__index__` is never consulted; without `__int__` (or with an
+`__int__` that does not return an int) only `_Bool` is possible, through `__float__`; an object
+with neither, a struct cdata, None … is a TypeError for every target. -/
+theorem cast_object_protocol (T : IntType) (i f : Option PyRes) :
+    castInt T (.obj true i f) = castInt T (.obj false i f) ∧
+    (T.kind ≠ .bool → ∀ h, castInt T (.obj h none f) = .error .typeError ∧
+      castInt T (.obj h (some .other) f) = .error .typeError ∧
+      ∀ g, castInt T (.obj h (some (.float g)) f) = .error .typeError) ∧
+    (∀ h, castInt T (.obj h none none) = .error .typeError) ∧
+    castInt T .noNumber = .error .typeError ∧ castInt T .cdataOther = .error .typeError := by
+  refine ⟨rfl, fun hb h => ⟨?_, ?_, fun g => ?_⟩, fun h => ?_, ?_, ?_⟩
+  all_goals
+    by_cases hb' : T.kind = .bool <;>
+    simp_all [castInt, CInt.cast, castValue, asULL, asBool, CastExprs.ullRefuses, CastExprs.castStrict, CastSrc.nbInt,
+      CastSrc.nbFloat, CastSrc.isCDataOrFloat, CastSrc.isCData, CastExprs.asBoolRefuses, CastExprs.asBoolUsesFloat]
 
-/-- the error branch: a bytes / str source that is not a single character is a TypeError -/
+/-- a bytes / str source that is not a single character is a TypeError -/
 theorem cast_rejects_non_single (T : IntType) :
     (∀ bs : List UInt8, bs.length ≠ 1 → castInt T (.bytes bs) = .error .typeError) ∧
     (∀ cps : List Nat, cps.length ≠ 1 → castInt T (.str cps) = .error .typeError) := by
@@ -203,7 +243,39 @@ theorem cast_rejects_non_single (T : IntType) :
     | [], _ => rfl
     | _ :: _ :: _, _ => rfl
 
-/-- the table the correspondence runs over consists of such types (42 integer + 4 character) -/
-theorem castTypes_count : castTypes.length = 46 ∧ (castTypes.filter (·.kind = .bool)).length = 1 := by decide
+/-! ### pointer ↔ integer -/
+
+theorem toptr_of_int (r : Int) : castToPointer r = .ok (r % 2 ^ 64).toNat := by
+  simp [castToPointer, castToPointerSrc, asULL, CastExprs.ptrCastStrict, pyLongToULL_mask, CastExprs.intToPtr,
+    BitVec.toNat_ofInt]
+
+/-- **pointer → `intptr_t` / `uintptr_t` → pointer** is the identity on addresses, whether the
+integer goes back as a Python int or directly as the cdata. -/
+theorem ptr_int_ptr (n : String) (k : Kind) (hk : k = .signed ∨ k = .unsigned) (a : Nat) (ha : a < 2 ^ 64) :
+    ∃ r bs, castInt ⟨n, .w64, k⟩ (.ptr a) = .ok r ∧ castToPointer r = .ok a ∧
+      cast ⟨n, .w64, k⟩ (.ptr a) = .ok bs ∧ castToPointerSrc (.cdataInt ⟨n, .w64, k⟩ bs) = .ok a := by
+  have hb : (⟨n, .w64, k⟩ : IntType).kind ≠ .bool := by rcases hk with rfl | rfl <;> simp
+  have hT : (⟨n, .w64, k⟩ : IntType).CharWF := by
+    rcases hk with rfl | rfl <;> constructor <;> intro h <;> cases h
+  have hc := castInt_eq_wrap ⟨n, .w64, k⟩ hb hT (.ptr a) ha a rfl
+  have hw : ((⟨n, .w64, k⟩ : IntType).wrap a % 2 ^ 64).toNat = a := by
+    rcases hk with rfl | rfl <;>
+      simp [IntType.wrap, CInt.wrap, IntType.readsSigned, IntType.bits, Width.bits, Width.bytes, wrapS, wrapU] <;> omega
+  refine ⟨_, writeRawGen (CastExprs.ptrValue (BitVec.ofNat 64 a)) .w64, hc, by rw [toptr_of_int, hw], ?_, ?_⟩
+  · simp [CInt.cast, castValue, hb]
+  · have hread : cdataToInt ⟨n, .w64, k⟩ (writeRawGen (CastExprs.ptrValue (BitVec.ofNat 64 a)) .w64) =
+        .ok ((⟨n, .w64, k⟩ : IntType).wrap a) := by
+      have := hc
+      simp only [castInt, CInt.cast, castValue, hb, if_false] at this
+      exact this
+    have hsrc : (CastSrc.cdataInt ⟨n, .w64, k⟩ (writeRawGen (CastExprs.ptrValue (BitVec.ofNat 64 a)) .w64)).nbInt =
+        some (.ok (.int ((⟨n, .w64, k⟩ : IntType).wrap a))) := by
+      simp [CastSrc.nbInt, hread, Except.map]
+    simp [castToPointerSrc, asULL, CastExprs.ptrCastStrict, CastExprs.ullRefuses, hsrc, CastSrc.isCDataOrFloat,
+      pyLongToULL_mask, CastExprs.intToPtr, BitVec.toNat_ofInt]
+    omega
+
+example : castInt (mk "intptr_t" .w64 .signed) (.ptr (2 ^ 64 - 1)) = .ok (-1) ∧ castToPointer (-1) = .ok (2 ^ 64 - 1) :=
+  ⟨by rfl, by rfl⟩
 
 end CffiVerif.C04
